@@ -61,6 +61,8 @@ def qenc(x):
     except Exception:  # noqa
         pass
     n, d, tag = project.const_ratio(x)
+    if tag == "big":
+        return ["b", str(int(x)), ""]          # integers beyond TLC's range are compared digit for digit
     if d == 0:
         return ["q", 0, 0]
     return ["q", n, d]
@@ -191,11 +193,12 @@ def tlc_classes(ctx, res, cfgs):
 def domain(ctx, res):
     rng = random.Random(ctx.seed * 23 + 9)
     classes = tlc_classes(ctx, res, ["MC_Terms_3.cfg", "MC_Terms_4q.cfg"] if ctx.quick else ["MC_Terms_3.cfg", "MC_Terms_4.cfg", "MC_Terms_5.cfg"])
-    cs = [None, 1, 2, -3, 0.5, 0, 12, -1]
+    cs = [None, 1, 2, -3, 0.5, 0, 12, -1, 9007199254740993, 123456789012345678901]
     vs = [None, "x", "z"]
     es = [None, 2, 0, -1, 0.5, 1, 3]
     triples = [(c, v, e) for c in cs for v in vs for e in es if not (v is None and (e is not None or c is None))]
-    written = [t for t in triples if not (t[0] == -1)]   # "-1x" is written with its coefficient; "-x" is covered below
+    written = [t for t in triples if not (t[0] == -1)] + [(2, "x", 9007199254740993), (None, "z", 2 ** 64 + 1)]
+    triples = [t for t in triples if t[0] is None or abs(t[0]) < 2 ** 30]      # make_term is exercised with ordinary coefficients   # "-1x" is written with its coefficient; "-x" is covered below
     ns = list(range(1, 501 if ctx.quick else 20001))
     like_forms = FORMS + ["(x + 1)^2", "0.5x", "x^0", "2x * y", "x * y", "y * x", "4", "x / 2"]
     pairs = list(itertools.product(like_forms, repeat=2))
